@@ -395,6 +395,17 @@ def _pepoly_one(c):
         bad(f'steady:pepoly:{tag}{f}', f'total {f} tendency at level {int(j[0])}, node (lon {lon[j[1], j[2]]:.4f}, sin(lat) {sinlat[j[1], j[2]]:.4f}): '
             f'code {got[f][j]!r}, continuous equations {exp[f][j]!r} (max |field| {scale - 1:.3g}, max error {err.max():.3e})')
   compare('', got, exp)
+  # the equation classes are ordinary (mutable) dataclasses: an object whose orography is re-assigned after it has
+  # been evaluated must behave like a freshly built one (nothing derived from the old field may be kept)
+  import copy
+  oro2 = jnp.asarray(modal(ev(c['oro']) / grav) * 2 + modal(ev(c['s'])))
+  eq_mut = copy.copy(eq)
+  eq_mut.orography = oro2
+  eq_new = pe.PrimitiveEquations(np.array(c['tref'], np.float64), oro2, coords, specs)
+  d_mut, d_new = np.asarray(eq_mut.explicit_terms(st).divergence), np.asarray(eq_new.explicit_terms(st).divergence)
+  if not np.array_equal(d_mut, d_new):
+    bad('steady:pepoly:reassigned_orography', f'explicit divergence tendency of an equation object whose orography was re-assigned after '
+        f'an evaluation differs from a freshly built one by {np.abs(d_mut - d_new).max():.3e}')
   # moist momentum equations: the tracer as specific humidity (virtual temperature in the pressure-gradient and geopotential terms)
   if 'moist_vorticity' in lv[0]:
     specs_m = pe.PrimitiveEquationsSpecs(radius=1.0, angular_velocity=omega, gravity_acceleration=grav,
